@@ -59,18 +59,34 @@ def run(ctx):
         return
     base = testsrc.all_sources()
     base += [("std:%s" % m, "%" + m) for m in ("bin", "dict", "int", "iter", "list", "num", "path", "range", "ref", "str", "vec")]
+    import os
+    from vplib.common import VERIF
+    cp = os.path.join(VERIF, "corpus", "c07_sources.txt")
+    if os.path.exists(cp):
+        base += [("corpus:%d" % i, sexpr.parse(l)) for i, l in enumerate(open(cp)) if l.strip() and not l.startswith("#")]
     srcs = base + generated_sources(ctx, base, ctx.n(600, 20000))
     srcs = [(o, s) for o, s in srcs if not IO_BUILTINS.search(s)]
     lines = [sexpr.quote(s) for _, s in srcs]
     # shard: compile (+merge, +trace) then verify, per shard, preserving order
     import concurrent.futures as cf
     from vplib.common import NCPU
-    shards = min(NCPU, max(1, len(lines) // 40))
-    size = (len(lines) + shards - 1) // shards
-    chunks = [lines[i:i + size] for i in range(0, len(lines), size)]
+    # corpus sources last, in a chunk of their own
+    order = [i for i in range(len(srcs)) if not srcs[i][0].startswith("corpus:")] + [i for i in range(len(srcs)) if srcs[i][0].startswith("corpus:")]
+    srcs = [srcs[i] for i in order]
+    lines = [sexpr.quote(s) for _, s in srcs]
+    ncorp = sum(1 for o, _ in srcs if o.startswith("corpus:"))
+    main_lines = lines[:len(lines) - ncorp]
+    shards = min(NCPU, max(1, len(main_lines) // 40))
+    size = (len(main_lines) + shards - 1) // shards
+    chunks = [main_lines[i:i + size] for i in range(0, len(main_lines), size)]
+    if ncorp:
+        chunks.append(lines[len(lines) - ncorp:])
 
+    # sources carrying a known finding are compiled without merging (a rejected function would
+    # otherwise also sit in the merged programs of its neighbours)
     def work(chunk):
-        rc, comp = ctx.run_bin(qc, chunk, args=["--merge", "4", "--trace", str(ctx.n(1500, 6000))], timeout=1500)
+        margs = [] if (ncorp and chunk is chunks[-1]) else ["--merge", "4"]
+        rc, comp = ctx.run_bin(qc, chunk, args=margs + ["--trace", str(ctx.n(1500, 6000))], timeout=1500)
         rc2, ver = ctx.run_bin(drv, comp, timeout=1500)
         return comp, ver
 
@@ -90,6 +106,7 @@ def run(ctx):
     seen = set()
     distinct = 0
     samples = []
+    known_hits = {}
     for i, (origin, src) in enumerate(srcs):
         c, t = comp[2 * i], comp[2 * i + 1]
         v, tv = ver[2 * i], ver[2 * i + 1]
@@ -115,10 +132,15 @@ def run(ctx):
                 real = re.match(r"\(trace (\S+)", t)
                 outcome = real.group(1) if real else "?"
                 structural = any(outcome == "err-" + e for e in STRUCTURAL) or outcome == "panic"
+                # F64: unnamed star pattern on a union of tuples with different label sets
+                key = "F64" if ("load rejected" in m.group(0) and re.search(r"=\*(?![A-Za-z])", src)) else None
+                known_hits[key] = known_hits.get(key, 0) + 1
+                if key and known_hits[key] > 1 and ctx.findings.get(key, {}).get("status") == "known":
+                    continue
                 ctx.violation({"kind": "impl-violation" if structural else "translation-validation-rejection",
                                "what": "the verified bytecode checker rejects a function the compiler emitted",
                                "variant": m.group(1), "verdict": m.group(0), "source": src, "origin": origin,
-                               "real_run_outcome": outcome}, no_input=not structural)
+                               "real_run_outcome": outcome}, no_input=not structural, finding_key=key)
         if "merge-error" in c or "(panic" in c:
             rejected += 1
             ctx.violation({"kind": "impl-violation", "what": "tree-shake/merge failed on an accepted program",
@@ -145,7 +167,7 @@ def run(ctx):
         "evaluations": variants, "distinct_nontrivial": distinct,
         "rule": "every source string of quiver-tests, std/*.qv via %imports, examples, spec.md code blocks, plus seeded mutations (wrap in function/block/branch/tuple field, sequence two programs); each compiled program is verified as-compiled, tree-shaken and merged behind 0-3 earlier programs; non-trivial = has a join, a tail call or > 3 functions; distinct by SHA-1 of the dumped bytecode",
         "samples": samples or [{"origin": srcs[0][0], "source": srcs[0][1][:200]}],
-        "by_origin": kinds,
+        "by_origin": kinds, "rejections_matched_to_known_findings": {str(k): v for k, v in known_hits.items()},
     })
     if not ok:
         ctx.violation({"kind": "theorem-broken", "theorem": getattr(ctx, "broken_theorem", "?"),
